@@ -21,10 +21,13 @@
 (* An abstract message is one flat record (uniform shape):                 *)
 (*   ty   "nil" untyped nil | "Tnil" typed nil *TestAllTypes |             *)
 (*        "T" testproto.TestAllTypes | "F" testproto.ForeignMessage |      *)
-(*        "P" traits.PullOnOffResponse | "A" types.AudioLevelChange        *)
+(*        "P" traits.PullOnOffResponse | "A" types.AudioLevelChange |      *)
+(*        "S" traits.ElectricMode.Segment (a float inside a real oneof)    *)
 (*   i    T: default_int32, F: c           s   T: default_string, A: name  *)
 (*   fl   T: default_float  (implicit presence)   db  T: default_double    *)
+(*        S: magnitude (implicit presence)                                 *)
 (*   of   T: optional_float [has, v]              rd  T: repeated_double   *)
+(*        S: oneof shape { float fixed } (has = the member is set)         *)
 (*   mf   T: map_int32_float keys 1, 2 -> [has, v]                         *)
 (*   wk   T: default_well_known [p, ts, du, uk], ts/du = [has, t], uk =    *)
 (*        unknown field 1000 carried by the nested message (0 none)        *)
@@ -52,6 +55,7 @@ AbsI(n) == IF n < 0 THEN -n ELSE n
 MinI(a, b) == IF a < b THEN a ELSE b
 MaxI(a, b) == IF a < b THEN b ELSE a
 MaxOf(S) == CHOOSE m \in S : \A n \in S : n <= m
+Pick(seq) == seq[RandomElement(1..Len(seq))]          \* weighted choice
 
 ----------------------------------------------------------------------------
 (* Values                                                                  *)
@@ -65,8 +69,19 @@ IsFinite(a) == a.k \in {"fin", "nz"}
 
 NoOF == [has |-> FALSE, v |-> F0]
 SomeF(a) == [has |-> TRUE, v |-> a]
-NoT == [has |-> FALSE, t |-> 0]
-SomeT(t) == [has |-> TRUE, t |-> t]
+\* A timestamp / duration is [has, t, e]: instant = anchor(e) + t units.  e = 0 is the ordinary range
+\* (the case's base instant; base duration); the other e are extreme anchors supplied by the harness:
+\*   timestamps  e = -1 time.Time{} (0001-01-01, the usual "never"), -2 the least UnixNano instant
+\*               (1677-09-21), 2 the greatest (2262-04-11), 1 year 9999
+\*   durations   e = 1: t = 12 is math.MaxInt64 ns exactly (anchor = MaxInt64 - 12 units),
+\*               e = -1: t = -12 is math.MinInt64 ns exactly
+\* TRUSTED (checked by the harness at start-up with exact big-integer arithmetic, abs.go checkAnchors):
+\* two different anchors are farther apart than any tolerance this module generates plus all
+\* offsets, so values with different e are never within tolerance, and within one e the distance is
+\* |t1 - t2| units.  With that, every comparison here is exact although TLC's integers are 32 bit.
+NoT == [has |-> FALSE, t |-> 0, e |-> 0]
+SomeT(t) == [has |-> TRUE, t |-> t, e |-> 0]
+FarT(t, e) == [has |-> TRUE, t |-> t, e |-> e]
 \* uk = varint value of unknown field 1000 carried by the NESTED message itself (0 = none)
 NoWK == [p |-> FALSE, ts |-> NoT, du |-> NoT, uk |-> 0]
 WK(ts, du) == [p |-> TRUE, ts |-> ts, du |-> du, uk |-> 0]
@@ -79,11 +94,12 @@ NoMF == [k1 |-> NoOF, k2 |-> NoOF]
 Empty(ty) == [ty |-> ty, i |-> 0, s |-> 0, fl |-> F0, db |-> F0, of |-> NoOF, rd |-> <<>>, mf |-> NoMF,
               wk |-> NoWK, rw |-> <<>>, mw |-> NoWK, nn |-> NoNN, u |-> NoU, unk |-> NoUnk,
               ch |-> <<>>, act |-> NoT]
-Types == {"nil", "Tnil", "T", "F", "P", "A"}
+Types == {"nil", "Tnil", "T", "F", "P", "A", "S"}
 FieldsOf(ty) == CASE ty = "T" -> {"i", "s", "fl", "db", "of", "rd", "mf", "wk", "rw", "mw", "nn", "u", "unk"}
                   [] ty = "F" -> {"i", "unk"}
                   [] ty = "P" -> {"ch", "unk"}
                   [] ty = "A" -> {"s", "act", "unk"}
+                  [] ty = "S" -> {"fl", "of", "unk"}
                   [] OTHER    -> {}
 
 ----------------------------------------------------------------------------
@@ -95,6 +111,20 @@ FloatEq(a, b) == IF a.k = "nan" \/ b.k = "nan" THEN a.k = b.k
                  ELSE a.k = b.k
 IntEq(a, b) == a = b
 
+(* Unset versus default, per presence kind (what "populated" means):       *)
+(*   implicit scalar (fl, db, nn.fl, i, s)   no presence: unset IS the zero *)
+(*       value; populated iff not +0 (ImplEq).  Under a comparer of its    *)
+(*       kind it is an ordinary leaf whose value is 0 when unset.          *)
+(*   optional scalar (T.of)                   presence: unset differs from *)
+(*       every set value, also from a set 0, under every comparer (OptEq)  *)
+(*   member of a real oneof (S.of float, T.u int32 / message)  presence,   *)
+(*       exactly like optional: a tolerance never bridges unset / set, nor *)
+(*       two different members (OptEq; u compared whole)                   *)
+(*   message field (wk, wk.ts, wk.du, nn, ...) presence: unset differs     *)
+(*       from a present empty message (p / has flags)                      *)
+(*   repeated, map                            compared by length / key set *)
+(*       and elementwise; an element equal to 0 is a present element       *)
+(*                                                                         *)
 (* Structural comparison with pluggable leaf comparisons.                  *)
 (*   FE, TE, DE  compare two present float / timestamp / duration leaves   *)
 (*   fapp        a float comparer is configured                            *)
@@ -104,7 +134,7 @@ IntEq(a, b) == a = b
 (*               FALSE = the comparer is consulted only when both sides    *)
 (*               are populated (kept to classify deviations)               *)
 OptEq(a, b, E(_, _)) == a.has = b.has /\ (a.has => E(a.v, b.v))
-OptTEq(a, b, E(_, _)) == a.has = b.has /\ (a.has => E(a.t, b.t))
+OptTEq(a, b, E(_, _)) == a.has = b.has /\ (a.has => E(a, b))     \* E gets the [has, t, e] records
 SeqEq(s, t, E(_, _)) == Len(s) = Len(t) /\ \A k \in 1..Len(s) : E(s[k], t[k])
 ImplEq(a, b, FE(_, _), fapp, iz) ==
   IF fapp /\ iz THEN FE(a, b)
@@ -141,7 +171,7 @@ Norm(x) == [x EXCEPT !.of = [@ EXCEPT !.v = NormF(@)],
                      !.rd = [k \in 1..Len(@) |-> NormF(@[k])],
                      !.mf = [k1 |-> [@.k1 EXCEPT !.v = NormF(@)], k2 |-> [@.k2 EXCEPT !.v = NormF(@)]],
                      !.unk = [@ EXCEPT !.swap = FALSE],
-                     !.ch = [k \in 1..Len(@) |-> [@[k] EXCEPT !.ct = [@ EXCEPT !.t = 0]]]]
+                     !.ch = [k \in 1..Len(@) |-> [@[k] EXCEPT !.ct = [@ EXCEPT !.t = 0, !.e = 0]]]]
 
 ----------------------------------------------------------------------------
 (* (b) tolerance comparers: partial functions (leaf kind, a, b) -> [ok, eq]*)
@@ -162,7 +192,7 @@ FloatWithin(fr, mg, a, b) ==
   IF IsFinite(a) /\ IsFinite(b)
     THEN 8 * AbsI(a.v - b.v) <= MaxI(8 * mg, fr * MinI(AbsI(a.v), AbsI(b.v)))
     ELSE FloatEq(a, b)
-IntWithin(d, a, b) == AbsI(a - b) <= d
+IntWithin(d, a, b) == a.e = b.e /\ AbsI(a.t - b.t) <= d      \* different anchors: beyond every tolerance (see NoT)
 
 NotOk == [ok |-> FALSE, eq |-> FALSE]
 Apply(cm, kind, a, b) ==
@@ -207,17 +237,17 @@ FloatPairs(x, y) ==
   {<<x.fl, y.fl>>, <<x.db, y.db>>, <<x.nn.fl, y.nn.fl>>, <<x.of.v, y.of.v>>, <<x.mf.k1.v, y.mf.k1.v>>, <<x.mf.k2.v, y.mf.k2.v>>}
   \cup { <<x.rd[k], y.rd[k]>> : k \in 1..MinI(Len(x.rd), Len(y.rd)) }
 TimePairs(x, y) ==
-  {<<x.wk.ts.t, y.wk.ts.t>>, <<x.mw.ts.t, y.mw.ts.t>>, <<x.nn.ts.t, y.nn.ts.t>>, <<x.act.t, y.act.t>>}
-  \cup { <<x.rw[k].ts.t, y.rw[k].ts.t>> : k \in 1..MinI(Len(x.rw), Len(y.rw)) }
+  {<<x.wk.ts, y.wk.ts>>, <<x.mw.ts, y.mw.ts>>, <<x.nn.ts, y.nn.ts>>, <<x.act, y.act>>}
+  \cup { <<x.rw[k].ts, y.rw[k].ts>> : k \in 1..MinI(Len(x.rw), Len(y.rw)) }
 DurPairs(x, y) ==
-  {<<x.wk.du.t, y.wk.du.t>>, <<x.mw.du.t, y.mw.du.t>>}
-  \cup { <<x.rw[k].du.t, y.rw[k].du.t>> : k \in 1..MinI(Len(x.rw), Len(y.rw)) }
+  {<<x.wk.du, y.wk.du>>, <<x.mw.du, y.mw.du>>}
+  \cup { <<x.rw[k].du, y.rw[k].du>> : k \in 1..MinI(Len(x.rw), Len(y.rw)) }
 FloatDiffs(x, y) == { AbsI(p[1].v - p[2].v) : p \in { q \in FloatPairs(x, y) : IsFinite(q[1]) /\ IsFinite(q[2]) } }
-IntDiffs(P) == { AbsI(p[1] - p[2]) : p \in P }
+IntDiffs(P) == { AbsI(p[1].t - p[2].t) : p \in { q \in P : q[1].e = q[2].e } }
 
 \* x with every leaf of the kinds in K replaced by a fixed value (presence and structure kept)
-EraseWK(w, K) == [w EXCEPT !.ts = IF "time" \in K THEN [@ EXCEPT !.t = 0] ELSE @,
-                           !.du = IF "dur" \in K \/ "durp" \in K THEN [@ EXCEPT !.t = 0] ELSE @]
+EraseWK(w, K) == [w EXCEPT !.ts = IF "time" \in K THEN [@ EXCEPT !.t = 0, !.e = 0] ELSE @,
+                           !.du = IF "dur" \in K \/ "durp" \in K THEN [@ EXCEPT !.t = 0, !.e = 0] ELSE @]
 Erase(x, K) ==
   LET y == IF "float" \in K
              THEN [x EXCEPT !.fl = F0, !.db = F0, !.of = [@ EXCEPT !.v = F0], !.rd = [k \in 1..Len(@) |-> F0],
@@ -225,8 +255,8 @@ Erase(x, K) ==
                             !.nn = [@ EXCEPT !.fl = F0]]
              ELSE x
   IN [y EXCEPT !.wk = EraseWK(@, K), !.rw = [k \in 1..Len(@) |-> EraseWK(@[k], K)], !.mw = EraseWK(@, K),
-               !.nn = IF "time" \in K THEN [@ EXCEPT !.ts = [@ EXCEPT !.t = 0]] ELSE @,
-               !.act = IF "time" \in K THEN [@ EXCEPT !.t = 0] ELSE @]
+               !.nn = IF "time" \in K THEN [@ EXCEPT !.ts = [@ EXCEPT !.t = 0, !.e = 0]] ELSE @,
+               !.act = IF "time" \in K THEN [@ EXCEPT !.t = 0, !.e = 0] ELSE @]
 
 \* change_time of corresponding Change messages differs / is present on one side only
 CTDiff(x, y) == \E k \in 1..MinI(Len(x.ch), Len(y.ch)) : x.ch[k].ct # y.ch[k].ct
@@ -239,10 +269,14 @@ GFv == {-16, -8, -1, 0, 1, 2, 4, 8, 9, 10, 16, 18}
 GFl == { Fin(v) : v \in GFv } \cup {NaN, PInf, NInf, NZ}
 GFlFin == { Fin(v) : v \in GFv }
 GTv == {-3, 0, 1, 2, 5, 6, 12}
-GOT == {NoT} \cup { SomeT(t) : t \in GTv }
+GFarT == {FarT(0, -1), FarT(1, -1), FarT(0, 1), FarT(0, 2), FarT(0, -2)}      \* zero time, year 9999, UnixNano limits
+GOT == {NoT} \cup { SomeT(t) : t \in GTv } \cup GFarT
 GWK == {NoWK, WK(NoT, NoT), WK(SomeT(0), NoT), WK(SomeT(5), SomeT(2)), WK(SomeT(6), SomeT(2)), WK(SomeT(5), SomeT(-3)),
         WK(NoT, SomeT(0)), WK(NoT, SomeT(5)), WK(SomeT(12), SomeT(6)),
-        WKu(SomeT(5), SomeT(2), 1), WKu(SomeT(5), SomeT(2), 2), WKu(NoT, NoT, 1)}
+        WKu(SomeT(5), SomeT(2), 1), WKu(SomeT(5), SomeT(2), 2), WKu(NoT, NoT, 1),
+        \* extreme instants and durations (MaxInt64 / MinInt64 ns and their neighbours)
+        WK(FarT(0, -1), SomeT(2)), WK(FarT(0, 1), SomeT(2)), WK(FarT(0, 2), FarT(12, 1)), WK(FarT(0, -2), FarT(-12, -1)),
+        WK(SomeT(5), FarT(12, 1)), WK(SomeT(5), FarT(11, 1)), WK(SomeT(5), FarT(-12, -1)), WK(FarT(1, -1), FarT(-11, -1))}
 GWKp == { w \in GWK : w.p }
 G(f) ==
   CASE f = "i"  -> 0..2
@@ -299,7 +333,8 @@ RandAnc(z) == LET r == RandomElement(1..10) IN
     [] r <= 6 -> RandMutN(Empty("T"), 2, z)
     [] r = 7  -> [Empty("P") EXCEPT !.ch = RandomElement(G("ch")), !.unk = RandomElement(G("unk"))]
     [] r = 8  -> [Empty("A") EXCEPT !.act = RandomElement(G("act")), !.s = RandomElement(G("s"))]
-    [] r = 9  -> [Empty("F") EXCEPT !.i = RandomElement(G("i"))]
+    [] r = 9  -> IF RandomElement(1..2) = 1 THEN [Empty("F") EXCEPT !.i = RandomElement(G("i"))]
+                 ELSE [Empty("S") EXCEPT !.fl = RandomElement(G("fl")), !.of = RandomElement(G("of"))]
     [] OTHER  -> Empty(RandomElement(Types))
 
 ----------------------------------------------------------------------------
@@ -310,11 +345,12 @@ Dense == [ty |-> "T", i |-> 1, s |-> 1, fl |-> Fin(8), db |-> Fin(16), of |-> So
           u |-> [k |-> 1, ui |-> 2, una |-> 0], unk |-> [a |-> 1, b |-> 0, swap |-> FALSE], ch |-> <<>>, act |-> NoT]
 Ancestors == {Empty("T"), Dense,
               [Empty("P") EXCEPT !.ch = <<[nm |-> 1, ct |-> SomeT(5), on |-> 1, uk |-> 0], [nm |-> 0, ct |-> SomeT(1), on |-> 2, uk |-> 0]>>],
-              [Empty("A") EXCEPT !.act = SomeT(5)]}
+              [Empty("A") EXCEPT !.act = SomeT(5)],
+              [Empty("S") EXCEPT !.fl = Fin(8), !.of = SomeF(Fin(1))]}
 Cm(k, a, b) == [k |-> k, a |-> a, b |-> b]
-MCTerms == {<<>>, <<T1(Cm("float", 0, 1))>>, <<T1(Cm("float", 1, 0)), T1(Cm("time", 1, 0))>>, <<T1(Cm("dur", 5, 0))>>}
+MCTerms == {<<>>, <<T1(Cm("float", 0, 1)), T1(Cm("time", 1, 0)), T1(Cm("dur", 5, 0))>>}
            \cup (IF Scope >= 2 THEN
-                 {<<T1(Cm("float", 1, 0))>>, <<T1(Cm("time", 1, 0))>>, <<T1(Cm("float", 0, 0))>>, <<T1(Cm("float", 0, 8))>>, <<T1(Cm("time", 0, 0))>>, <<T1(Cm("float", 2, 2))>>, <<T1(Cm("time", 7, 0))>>, <<T1(Cm("dur", 0, 0))>>,
+                 {<<T1(Cm("float", 0, 1))>>, <<T1(Cm("float", 1, 0)), T1(Cm("time", 1, 0)), T1(Cm("dur", 5, 0))>>, <<T1(Cm("float", 1, 0)), T1(Cm("time", 1, 0))>>, <<T1(Cm("dur", 5, 0))>>, <<T1(Cm("float", 1, 0))>>, <<T1(Cm("time", 1, 0))>>, <<T1(Cm("float", 0, 0))>>, <<T1(Cm("float", 0, 8))>>, <<T1(Cm("time", 0, 0))>>, <<T1(Cm("float", 2, 2))>>, <<T1(Cm("time", 7, 0))>>, <<T1(Cm("dur", 0, 0))>>,
                   <<T1(Cm("float", 0, 1)), T1(Cm("time", 1, 0))>>,
                   <<[op |-> "or", cs |-> <<Cm("float", 0, 1), Cm("float", 1, 0)>>]>>,
                   <<[op |-> "and", cs |-> <<Cm("float", 0, 2), Cm("float", 0, 1), Cm("dur", 1, 0)>>]>>,
@@ -325,7 +361,7 @@ MCTerms == {<<>>, <<T1(Cm("float", 0, 1))>>, <<T1(Cm("float", 1, 0)), T1(Cm("tim
 MCAnc == IF Scope >= 2 THEN Ancestors ELSE Ancestors \ {Empty("T")}
 \* quick domain: x varies in the fields that carry compared kinds (y still varies in all)
 MCX(a) == IF Scope >= 2 THEN Mut1(a)
-          ELSE { x \in Mut1(a) : x.i = a.i /\ x.s = a.s /\ x.u = a.u /\ x.mw = a.mw /\ x.db = a.db /\ x.mf = a.mf }
+          ELSE { x \in Mut1(a) : x.i = a.i /\ x.s = a.s /\ x.u = a.u /\ x.mw = a.mw /\ x.db = a.db /\ x.mf = a.mf /\ x.rw = a.rw }
 MCInit == c \in UNION { [st : {0}, a : {a}, x : MCX(a), y : {a}, m1 : {<<>>}, m2 : {<<>>}] : a \in MCAnc }
 MCM2 == IF Scope >= 2 THEN {<<T1(Cm("float", 0, 1))>>, <<T1(Cm("float", 1, 0)), T1(Cm("time", 1, 0))>>}
         ELSE {<<T1(Cm("float", 0, 1))>>}
@@ -361,8 +397,10 @@ LawExact == Base =>
             /\ FloatWithin(fr, mg, p[1], p[2]) => FloatWithin(fr + 1, mg, p[1], p[2]) /\ FloatWithin(fr, mg + 1, p[1], p[2])
             /\ FloatWithin(fr, mg, p[1], p[1])
   /\ \A p \in TimePairs(c.x, c.y) \cup DurPairs(c.x, c.y) :
-       LET d == AbsI(p[1] - p[2]) IN
-       IntWithin(d, p[1], p[2]) /\ IntWithin(d + 1, p[2], p[1]) /\ (d > 0 => ~IntWithin(d - 1, p[1], p[2]))
+       LET d == AbsI(p[1].t - p[2].t) IN
+       IF p[1].e = p[2].e
+         THEN IntWithin(d, p[1], p[2]) /\ IntWithin(d + 1, p[2], p[1]) /\ (d > 0 => ~IntWithin(d - 1, p[1], p[2]))
+         ELSE \A tol \in 0..13 : ~IntWithin(tol, p[1], p[2]) /\ ~IntWithin(tol, p[2], p[1])
   \* a single wk.ts difference: Equal(time d) accepts iff d >= the difference
   /\ \A d \in 0..3 :
        LET y == [Dense EXCEPT !.wk = WK(SomeT(5 + 2), SomeT(2))] IN
@@ -425,6 +463,17 @@ GenDurP(n) ==
       y  == [x EXCEPT !.wk = WK(SomeT(5), SomeT(RandomElement(ds)))]
   IN [k |-> "cmp", n |-> n, x |-> x, y |-> y, cfg |-> One(<<T1(Cm("durp", RandomElement({0, 1, 2, 4, 5, 6, 40, 400}), 0))>>),
       sc |-> RandomElement(0..3), tb |-> RandomElement({0, 2})]
+\* a stratum for extreme instants / durations: two messages that differ in one timestamp and one
+\* duration at most, values taken across the anchors, small tolerances (both argument orders are run)
+GenFar(n) ==
+  LET ts == GFarT \cup {SomeT(5), SomeT(6), FarT(5, -1), FarT(1, 2)}
+      ds == {SomeT(2), SomeT(-3), SomeT(0), FarT(12, 1), FarT(11, 1), FarT(0, 1), FarT(-12, -1), FarT(-11, -1)}
+      x  == [Dense EXCEPT !.wk = WK(RandomElement(ts), RandomElement(ds))]
+      y  == [x EXCEPT !.wk = WK(RandomElement(ts), RandomElement(ds))]
+      tol == RandomElement({0, 1, 2, 13})
+      cfg == Pick(<< One(<<T1(Cm("time", tol, 0)), T1(Cm("dur", tol, 0))>>), One(<<T1(Cm("time", tol, 0))>>),
+                     One(<<T1(Cm("dur", tol, 0))>>) >>)
+  IN [k |-> "cmp", n |-> n, x |-> x, y |-> y, cfg |-> cfg, sc |-> RandomElement(0..3), tb |-> RandomElement(0..3)]
 \* the exhaustive core: every single replacement against each ancestor, default comparer
 ExhaustiveCmp == UNION { { [k |-> "cmp", n |-> 0, x |-> a, y |-> y, cfg |-> NoCfg, sc |-> 1, tb |-> 0] : y \in Mut1(a) } : a \in Ancestors }
 
@@ -436,11 +485,11 @@ ExhaustiveCmp == UNION { { [k |-> "cmp", n |-> 0, x |-> a, y |-> y, cfg |-> NoCf
 (* read mask nil / covering / not covering the written fields.             *)
 (*                                                                         *)
 (* frequent).  Only leaves the walk touches: fl, db, rd, wk, i.            *)
-Pick(seq) == seq[RandomElement(1..Len(seq))]          \* weighted choice
 SG(f) == CASE f = "fl" -> { Fin(v) : v \in {0, 2, 4, 6, 8, 10, 12, 16} }
            [] f = "db" -> { Fin(v) : v \in {0, 4, 8} }
            [] f = "rd" -> {<<>>, <<Fin(8)>>, <<Fin(10)>>, <<Fin(8), Fin(16)>>}
-           [] f = "wk" -> {NoWK, WK(SomeT(5), SomeT(2)), WK(SomeT(6), SomeT(2)), WK(SomeT(8), SomeT(4)), WK(SomeT(5), NoT), WKu(SomeT(5), SomeT(2), 1)}
+           [] f = "wk" -> {NoWK, WK(SomeT(5), SomeT(2)), WK(SomeT(6), SomeT(2)), WK(SomeT(8), SomeT(4)), WK(SomeT(5), NoT), WKu(SomeT(5), SomeT(2), 1),
+                           WK(FarT(0, -1), SomeT(2)), WK(FarT(0, 2), SomeT(2))}
            [] OTHER    -> 0..1
 StreamCfgs == {<<T1(Cm("float", 0, 4))>>, <<T1(Cm("float", 0, 2))>>, <<T1(Cm("float", 2, 0))>>, <<T1(Cm("time", 1, 0))>>,
                <<T1(Cm("float", 0, 4)), T1(Cm("time", 2, 0))>>, <<T1(Cm("dur", 2, 0)), T1(Cm("time", 3, 0))>>, <<>>}
@@ -480,7 +529,7 @@ GenStream(n) ==
       init |-> IF isVal /\ RandomElement(1..3) # 1 THEN [has |-> TRUE, v |-> a] ELSE [has |-> FALSE, v |-> Empty("T")],
       writes |-> ws, subs |-> <<sub(1), sub(2), sub(3)>>, sc |-> RandomElement(0..3), tb |-> RandomElement(0..3)]
 
-GenInit == c \in { GenCmp(n) : n \in 1..NCases } \cup { GenDurP(n) : n \in 1..(NCases \div 50) } \cup ExhaustiveCmp \cup { GenStream(n) : n \in 1..(NCases \div 5) }
+GenInit == c \in { GenCmp(n) : n \in 1..NCases } \cup { GenDurP(n) : n \in 1..(NCases \div 50) } \cup { GenFar(n) : n \in 1..(NCases \div 20) } \cup ExhaustiveCmp \cup { GenStream(n) : n \in 1..(NCases \div 5) }
 GenNext == UNCHANGED c
 EmitCase == PrintT("CASE " \o ToJson(c))
 =============================================================================
